@@ -561,6 +561,85 @@ def random_indices(v):
     return n
 
 
+def acquire_with_half_open_responder(v):
+    """An IKE_SA_INIT request from the peer's address (anybody can send one) was answered and IKE_AUTH never follows: that half-open responder IKE_SA is no
+    IKE_SA "with the peer" yet.  An ACQUIRE towards the peer is negotiated all the same - by an IKE_SA of the daemon's own - and once that one is established
+    the next ACQUIRE rides on it, whatever is still listed in front of it (Ike.tla CtlAcquire / UsableIdx)."""
+    n = 0
+    w = wd.World(seed=common.SEED, opts={'dpd': 50, 'lifetime': 500})
+    try:
+        init = w.acquire('B', sport=0, dport=0)
+        w.ctl['B'].ike_sas.clear()                               # (the peer forgets about it: the request might as well have been spoofed)
+        w.dispatch('A', init, 'B')
+        listed = [x.state.name for x in w.ctl['A'].ike_sas]
+        if listed != ['INIT_RES_SENT']:
+            raise common.MachineryError(f'no half-open responder IKE_SA: {listed}')
+        req = w.acquire('A', sport=0, dport=0)
+        n += 1
+        if req is None or W.dec_header(bytes(req))['xchg'] != W.IKE_SA_INIT:
+            v.violation('with a half-open responder IKE_SA listed for the peer (IKE_SA_INIT answered, IKE_AUTH never came) an ACQUIRE towards that peer is '
+                        f'{"queued on it - nothing is sent, nothing ever drains the queue" if req is None else "not started by an IKE_SA_INIT of its own"}: it is never negotiated',
+                        {'listed': listed}, signature={'component': 'acquire:half-open', 'what': 'first'})
+        else:
+            m, cur = req, 'A'
+            while m is not None:
+                nxt = w.peer_of(cur)
+                m, cur = w.dispatch(nxt, m, cur), nxt
+            listed = [x.state.name for x in w.ctl['A'].ike_sas]
+            nxt_req = w.acquire('A', sport=0, dport=0)
+            n += 1
+            if 'ESTABLISHED' not in listed:
+                v.violation(f'the IKE_SA started by the ACQUIRE did not come up next to the half-open one: {listed}', {}, signature={'component': 'acquire:half-open', 'what': 'establish'})
+            elif nxt_req is None or W.dec_header(bytes(nxt_req))['xchg'] != W.CREATE_CHILD_SA:
+                v.violation(f'IKE_SAs listed {listed}: the next ACQUIRE does not ride on the established IKE_SA', {'listed': listed}, signature={'component': 'acquire:half-open', 'what': 'reuse'})
+    except wd.Escape as ex:
+        v.violation(f'acquire with a half-open responder IKE_SA: {ex}', {}, signature={'component': 'acquire:half-open', 'what': 'escape'})
+    finally:
+        w.close()
+    return n
+
+
+def index_edges(v):
+    """The lowest and the highest index a protect entry can have (0 - also a possible draw - and 2**20) next to an ordinary one: the outbound policy carries
+    index << 3 | OUT for each of them (0 is an index like any other, not "none"), and an ACQUIRE with that value is negotiated with that entry."""
+    import probes
+    n = 0
+    for idx in (0, 2 ** 20):
+        a = wd.connection_dict('A', 'B', dpd=50, lifetime=500)
+        e1 = dict(a['protect'][0], ip_proto='tcp', ipsec_proto='ah', mode='transport', index=idx, peer_port=23)
+        e1.pop('encr', None)
+        e2 = dict(a['protect'][0], ip_proto='udp', ipsec_proto='esp', mode='transport', index=5)
+        a['protect'] = [e1, e2]
+        b = wd.connection_dict('B', 'A', dpd=50, lifetime=500)
+        b['protect'] = [dict({k: x for k, x in b['protect'][0].items() if k != 'encr'}, ip_proto='tcp', ipsec_proto='ah', mode='transport', index=31, my_port=23),
+                        dict(b['protect'][0], ip_proto='udp', ipsec_proto='esp', mode='transport', index=32)]
+        w = wd.World(conf={'A': {'A-B': a}, 'B': {'B-A': b}}, seed=common.SEED)
+        try:
+            outs = {k[4]: x['index'] for k, x in observed_spd(w.kernel['A']).items() if k[-1] == 1}
+            n += 1
+            if outs != {6: (idx << 3) | 1, 17: (5 << 3) | 1}:
+                v.violation(f'protect entries with the indices {idx} and 5: the outbound policies carry {outs} (per IP protocol), expected {{6: {(idx << 3) | 1}, 17: 41}}',
+                            {'index': idx, 'sent': outs}, signature={'component': 'index:edge', 'index': idx})
+                continue
+            req = w.acquire('A', index=idx, proto=6, dport=23)
+            if req is None:
+                v.violation(f'the ACQUIRE of the policy of the entry with index {idx} is not negotiated', {}, signature={'component': 'index:edge-acquire', 'index': idx})
+                continue
+            res = w.dispatch('B', bytes(req), 'A')
+            auth = bytes(w.dispatch('A', res, 'B'))
+            inner = W.dec_message(auth, probes.keys_of(w.ctl['A'].ike_sas[0].my_crypto))['inner']
+            prop = next(x for x in inner if x['t'] == W.SA)['proposals'][0]
+            tsr = next(x for x in inner if x['t'] == W.TSR)['ts']
+            if prop['proto'] != 2 or tsr[-1]['proto'] != 6 or (tsr[-1]['sport'], tsr[-1]['eport']) != (23, 23):
+                v.violation(f'the ACQUIRE of the entry with index {idx} (AH, tcp, port 23) is negotiated with protocol {prop["proto"]}, selector {tsr[-1]["proto"]} / '
+                            f'{tsr[-1]["sport"]}-{tsr[-1]["eport"]}', {}, signature={'component': 'index:edge-content', 'index': idx})
+        except wd.Escape as ex:
+            v.violation(f'entry with index {idx}: {ex}', {}, signature={'component': 'index:escape'})
+        finally:
+            w.close()
+    return n
+
+
 def cfg(max_steps):
     return ('SPECIFICATION Spec\nCONSTANTS\n Configs = {{1}, {1, 2}, {3}, {1, 2, 3}, {4, 5}, {1, 2, 3, 4, 5}}\n MaxSteps = %d\nINVARIANT AfterStart\nINVARIANT AcquireMaps\nPROPERTY AfterStop\n'
             'VIEW View\nCHECK_DEADLOCK FALSE\n' % max_steps)
@@ -592,7 +671,7 @@ def run(tier, replay=None):
         if err:
             v.violation(err, {'behaviour': [s[0] for s in steps[:done + 1]]}, signature={'component': 'spd', 'what': err.split(':')[0][:40]})
     n_acq = acquire_mapping(v, tier)
-    n_busy = acquire_while_busy(v) + acquire_unknown_index(v) + acquire_around_rekey(v) + acquire_multihomed(v) + random_indices(v)
+    n_busy = acquire_while_busy(v) + acquire_unknown_index(v) + acquire_around_rekey(v) + acquire_multihomed(v) + random_indices(v) + index_edges(v) + acquire_with_half_open_responder(v)
     # Ike.tla CtlAcquire (queue on the IKE_SA with that peer / start one): every divergence right after an ACQUIRE in the replayed behaviours belongs here
     from checks import ikeprop
     ike_cov = dict(ikeprop.run(v, ['init'] if tier == 'quick' else ['init', 'estab', 'init3'], limit=700 if tier == 'quick' else None,
